@@ -79,6 +79,11 @@ func (w *c04World) compute(ctx context.Context) (interface{}, error) {
 	return nil, nil
 }
 
+// c04Mode narrows the "full" dimensions for entries that must finish: 0 all
+// (failure none/fail/retry, 1-2 writes), 1 a failing run and one write, 2 a
+// retried run and one write.
+var c04Mode int
+
 func c04Run(k, writers int, withStop bool, maxRuns int, full bool) {
 	WriteThenReadDelay = 0
 	w := &c04World{k: k, maxRuns: maxRuns, registered: map[*Resource]bool{}, hit: map[*Resource]bool{}}
@@ -88,7 +93,14 @@ func c04Run(k, writers int, withStop bool, maxRuns int, full bool) {
 	}
 	failure := 0
 	if full {
-		failure = nondet.Choice("failure", 3)
+		switch c04Mode {
+		case 1:
+			failure = 1
+		case 2:
+			failure = 2
+		default:
+			failure = nondet.Choice("failure", 3)
+		}
 	}
 	switch failure {
 	case 1:
@@ -107,6 +119,9 @@ func c04Run(k, writers int, withStop bool, maxRuns int, full bool) {
 		writes := 2
 		if full {
 			writes = 1 + nondet.Choice("writes"+strconv.Itoa(j), 2)
+			if c04Mode != 0 {
+				writes = 1
+			}
 		}
 		nondet.Go("writer"+strconv.Itoa(j), func() {
 			for n := 0; n < writes; n++ {
@@ -166,6 +181,17 @@ func VerifC04One() { c04Run(1, 1, true, 6, false) }
 
 // VerifC04OneFull: as One plus compute failing / asking for a retry on run 1 or 2, one or two writes.
 func VerifC04OneFull() { c04Run(1, 1, true, 6, true) }
+
+// VerifC04OneFail / OneRetry: one resource, one writer with one write; run 1 or 2
+// of the computation fails for good / asks for a retry.
+func VerifC04OneFail() {
+	c04Mode = 1
+	c04Run(1, 1, true, 6, true)
+}
+func VerifC04OneRetry() {
+	c04Mode = 2
+	c04Run(1, 1, true, 6, true)
+}
 
 // VerifC04Two: two resources, two writers.
 func VerifC04Two() { c04Run(2, 2, true, 8, false) }
